@@ -177,6 +177,23 @@ fn symbols_on(ctx: &mut Ctx, plan: &mut Plan, rng: &mut Rng, t: &Tab, vmax: usiz
     }
 }
 
+/// a symbol from the flat protocol tables (`Tab::enc` layout)
+fn tab_from(size: usize, dim: usize, ops: &[usize], vs: &[usize]) -> Tab {
+    let mut op = vec![vec![0; size + 1]; dim + 1];
+    let mut v = vec![vec![0; size + 1]; dim];
+    for d in 1..=size {
+        for i in 0..=dim {
+            op[i][d] = ops[(d - 1) * (dim + 1) + i];
+        }
+    }
+    for i in 0..dim {
+        for d in 1..=size {
+            v[i][d] = vs[i * size + (d - 1)];
+        }
+    }
+    Tab { size, dim, op, v }
+}
+
 fn parse(s: &str) -> Tab {
     Tab::from_dsym(&s.parse::<PartialDSym>().unwrap())
 }
@@ -217,6 +234,13 @@ fn main() {
     for s in pinned {
         let t = parse(s);
         renumbered_variants(&mut ctx, &mut plan, &t, &mut rng, if t.size > 1 { 2 } else { 0 }, "pinned");
+    }
+
+    // (0b) oracle regression: a 3D symbol whose group has order 8 while HLT coset enumeration of the
+    //      returned presentation needs more than 10 000 cosets (the order oracle's first limit)
+    {
+        let t = tab_from(4, 3, &[2, 1, 4, 3, 1, 2, 3, 4, 4, 3, 2, 1, 3, 4, 1, 2], &[5, 5, 4, 4, 3, 4, 4, 3, 2, 2, 2, 2]);
+        fg_case(&mut ctx, &mut plan, &t, "pinned", true);
     }
 
     // (1) every connected complete 2D D-set (all labellings) up to the size bound; beyond it a
